@@ -1359,10 +1359,12 @@ package connect
 //@   assigns nothing
 //@ macro envOK(w *envelopeWriter) bool = w.writer != nil && !pooled(w.writer) && w.bufferPool != nil && w.codec != nil && (forall v int :: {menc(w.codec, v)} |menc(w.codec, v)| < 4294967296) && (w.compressionPool != nil ==> (forall x seq :: {compBy(w.compressionPool.compressors, x)} |compBy(w.compressionPool.compressors, x)| < 4294967296))
 //@ func (*grpcHandlerConn).Send(hc, msg) res
-//@   tags C05, C11, C02
-//@   requires hc != nil && hc.responseWriter != nil && hdrOf(hc.responseWriter) != nil && hdrOf(hc.responseWriter) != hc.responseHeader && envOK(hc.marshaler.envelopeWriter)
-//@   assigns hc.wroteToBody, mapof(hdrOf(hc.responseWriter)), mapvals(hdrOf(hc.responseWriter)), out(hc.marshaler.envelopeWriter.writer)
+//@   tags C05, C11, C02, C15
+//@   requires hc != nil && hc.request != nil && hc.responseWriter != nil && hdrOf(hc.responseWriter) != nil && hdrOf(hc.responseWriter) != hc.responseHeader && envOK(hc.marshaler.envelopeWriter)
+//@   assigns hc.wroteToBody, mapof(hdrOf(hc.responseWriter)), mapvals(hdrOf(hc.responseWriter)), out(hc.marshaler.envelopeWriter.writer), cdone(reqctx(hc.request))
 //@   ensures hc.wroteToBody                                                                               // label: any-send-attempt-commits-the-headers
+//@   ensures res != nil && cdone(reqctx(hc.request)) == context.Canceled ==> coded(res) && codeOf(res) == 1   // label: a-send-that-fails-once-the-client-went-away-is-canceled-whatever-the-transport-reports   // tags: C15
+//@   ensures res != nil && cdone(reqctx(hc.request)) == context.DeadlineExceeded ==> coded(res) && codeOf(res) == 4   // label: a-send-that-fails-once-the-deadline-passed-is-deadline-exceeded-whatever-the-transport-reports   // tags: C15
 //@   ensures !old(hc.wroteToBody) ==> (forall k seq :: {mapval(hdrOf(hc.responseWriter), k)} mapdom(hc.responseHeader, k) ==> mapdom(hdrOf(hc.responseWriter), k) && mapval(hdrOf(hc.responseWriter), k) == old(rawvals(hdrOf(hc.responseWriter), k)) ++ mapval(hc.responseHeader, k))   // label: response-headers-sent-with-the-first-message   // tags: C11
 //@   ensures old(hc.wroteToBody) ==> (forall k seq :: {mapval(hdrOf(hc.responseWriter), k)} mapval(hdrOf(hc.responseWriter), k) == old(mapval(hdrOf(hc.responseWriter), k)))   // label: headers-written-once
 //@   ensures res != nil ==> coded(res)
@@ -1897,7 +1899,7 @@ package connect
 //@   ensures err != nil && res != nil && !called("(*envelopeWriter).Write", 1) ==> called("json.Marshal", 2) && callres("json.Marshal", 2, 1) != nil   // label: a-failed-call-gets-its-end-of-stream-message-unless-not-even-the-fallback-can-be-rendered   // tags: C02, C05
 //@   ensures res != nil ==> coded(res)
 
-//@ constfield connectStreamingHandlerConn.request, connectStreamingHandlerConn.responseWriter, connectStreamingHandlerConn.responseTrailer
+//@ constfield connectStreamingHandlerConn.request, connectStreamingHandlerConn.responseWriter, connectStreamingHandlerConn.responseTrailer, connectUnaryHandlerConn.request
 //@ func (*connectStreamingHandlerConn).Close(hc, err) res
 //@   tags C02, C05
 //@   requires hc != nil && hc.responseWriter != nil && hc.request != nil && hc.request.Body != nil && envOK(hc.marshaler.envelopeWriter)
@@ -2447,12 +2449,14 @@ package connect
 //@   ensures err != nil && cdone(cc.duplexCall.ctx) == context.DeadlineExceeded ==> coded(err) && codeOf(err) == 4 && !Is(err, io.EOF)   // label: a-send-that-fails-once-the-context-has-expired-is-deadline-exceeded-whatever-the-codec-or-compressor-reports   // tags: C15
 //@   assert@call((*connectUnaryMarshaler).Marshal#1): arg1 == msg
 //@ func (*connectUnaryHandlerConn).Send(hc, msg) err
-//@   tags C01, C05, C11
-//@   requires hc != nil && hc.responseWriter != nil && hdrOf(hc.responseWriter) != nil && hdrOf(hc.responseWriter) != hc.responseTrailer
+//@   tags C01, C05, C11, C15
+//@   requires hc != nil && hc.request != nil && hc.responseWriter != nil && hdrOf(hc.responseWriter) != nil && hdrOf(hc.responseWriter) != hc.responseTrailer
 //@   requires hc.marshaler.writer != nil && !pooled(hc.marshaler.writer) && hc.marshaler.codec != nil && hc.marshaler.bufferPool != nil && hc.marshaler.header != nil
 //@   assigns everything
 //@   ensures hc.wroteBody   // label: close-will-not-rewrite-the-headers
-//@   ensures (err == nil) == (callres("(*connectUnaryMarshaler).Marshal", 1) == nil) && (err != nil ==> err == callres("(*connectUnaryMarshaler).Marshal", 1))   // label: the-marshaler's-verdict-is-returned
+//@   ensures (err == nil) == (callres("(*connectUnaryMarshaler).Marshal", 1) == nil) && (err != nil && cdone(reqctx(hc.request)) == nil && (coded(callres("(*connectUnaryMarshaler).Marshal", 1)) || (!Is(callres("(*connectUnaryMarshaler).Marshal", 1), context.Canceled) && !Is(callres("(*connectUnaryMarshaler).Marshal", 1), context.DeadlineExceeded))) ==> err == callres("(*connectUnaryMarshaler).Marshal", 1))   // label: the-marshaler's-verdict-is-returned
+//@   ensures err != nil && cdone(reqctx(hc.request)) == context.Canceled ==> coded(err) && codeOf(err) == 1   // label: a-send-that-fails-once-the-client-went-away-is-canceled-whatever-the-transport-reports   // tags: C15
+//@   ensures err != nil && cdone(reqctx(hc.request)) == context.DeadlineExceeded ==> coded(err) && codeOf(err) == 4   // label: a-send-that-fails-once-the-deadline-passed-is-deadline-exceeded-whatever-the-transport-reports   // tags: C15
 //@   assert@call((*connectUnaryMarshaler).Marshal#1): arg1 == msg && called("(*connectUnaryHandlerConn).writeResponseHeader", 1)   // label: headers-and-trailers-are-written-before-the-body   // tags: C11, C05
 //@ func (*connectStreamingClientConn).Send(cc, msg) err
 //@   tags C01, C15
@@ -2463,10 +2467,12 @@ package connect
 //@   ensures err != nil && cdone(cc.duplexCall.ctx) == context.DeadlineExceeded ==> coded(err) && codeOf(err) == 4 && !Is(err, io.EOF)   // label: a-send-that-fails-once-the-context-has-expired-is-deadline-exceeded-whatever-the-codec-or-compressor-reports   // tags: C15
 //@   assert@call((*envelopeWriter).Marshal#1): arg1 == msg
 //@ func (*connectStreamingHandlerConn).Send(hc, msg) err
-//@   tags C01
-//@   requires hc != nil && hc.responseWriter != nil && envOK(hc.marshaler.envelopeWriter)
-//@   assigns out(hc.marshaler.envelopeWriter.writer)
-//@   ensures (err == nil) == (callres("(*envelopeWriter).Marshal", 1) == nil) && (err != nil ==> err == callres("(*envelopeWriter).Marshal", 1))   // label: the-marshaler's-verdict-is-returned
+//@   tags C01, C15
+//@   requires hc != nil && hc.request != nil && hc.responseWriter != nil && envOK(hc.marshaler.envelopeWriter)
+//@   assigns out(hc.marshaler.envelopeWriter.writer), cdone(reqctx(hc.request))
+//@   ensures (err == nil) == (callres("(*envelopeWriter).Marshal", 1) == nil) && (err != nil && cdone(reqctx(hc.request)) == nil && (coded(callres("(*envelopeWriter).Marshal", 1)) || (!Is(callres("(*envelopeWriter).Marshal", 1), context.Canceled) && !Is(callres("(*envelopeWriter).Marshal", 1), context.DeadlineExceeded))) ==> err == callres("(*envelopeWriter).Marshal", 1))   // label: the-marshaler's-verdict-is-returned
+//@   ensures err != nil && cdone(reqctx(hc.request)) == context.Canceled ==> coded(err) && codeOf(err) == 1   // label: a-send-that-fails-once-the-client-went-away-is-canceled-whatever-the-transport-reports   // tags: C15
+//@   ensures err != nil && cdone(reqctx(hc.request)) == context.DeadlineExceeded ==> coded(err) && codeOf(err) == 4   // label: a-send-that-fails-once-the-deadline-passed-is-deadline-exceeded-whatever-the-transport-reports   // tags: C15
 //@   assert@call((*envelopeWriter).Marshal#1): arg1 == msg
 //@ func (*grpcClientConn).Send(cc, msg) err
 //@   tags C01, C15
@@ -2936,10 +2942,12 @@ package connect
 
 // the handler conns' Receive: the unmarshaler's verdict, success as a true nil
 //@ func (*connectUnaryHandlerConn).Receive(hc, msg) err
-//@   tags C01, C07
-//@   requires hc != nil && hc.unmarshaler.bufferPool != nil && hc.unmarshaler.reader != nil && !pooled(hc.unmarshaler.reader) && !typeis(hc.unmarshaler.reader, "*bytes.Buffer") && !typeis(hc.unmarshaler.reader, "*io.LimitedReader") && hc.unmarshaler.readMaxBytes >= 0 && hc.unmarshaler.codec != nil && msg != addr(hc.unmarshaler)
+//@   tags C01, C07, C15
+//@   requires hc != nil && hc.request != nil && hc.unmarshaler.bufferPool != nil && hc.unmarshaler.reader != nil && !pooled(hc.unmarshaler.reader) && !typeis(hc.unmarshaler.reader, "*bytes.Buffer") && !typeis(hc.unmarshaler.reader, "*io.LimitedReader") && hc.unmarshaler.readMaxBytes >= 0 && hc.unmarshaler.codec != nil && msg != addr(hc.unmarshaler)
 //@   assigns everything
-//@   ensures (err == nil) == (callres("(*connectUnaryUnmarshaler).Unmarshal", 1) == nil) && (err != nil ==> err == callres("(*connectUnaryUnmarshaler).Unmarshal", 1))   // label: the-unmarshaler's-verdict-is-returned
+//@   ensures (err == nil) == (callres("(*connectUnaryUnmarshaler).Unmarshal", 1) == nil) && (err != nil && (Is(callres("(*connectUnaryUnmarshaler).Unmarshal", 1), io.EOF) || (cdone(reqctx(hc.request)) == nil && (coded(callres("(*connectUnaryUnmarshaler).Unmarshal", 1)) || (!Is(callres("(*connectUnaryUnmarshaler).Unmarshal", 1), context.Canceled) && !Is(callres("(*connectUnaryUnmarshaler).Unmarshal", 1), context.DeadlineExceeded))))) ==> err == callres("(*connectUnaryUnmarshaler).Unmarshal", 1))   // label: the-unmarshaler's-verdict-is-returned
+//@   ensures err != nil && cdone(reqctx(hc.request)) == context.Canceled && !Is(callres("(*connectUnaryUnmarshaler).Unmarshal", 1), io.EOF) ==> coded(err) && codeOf(err) == 1   // label: a-receive-that-fails-once-the-client-went-away-is-canceled-whatever-the-transport-reports   // tags: C15
+//@   ensures err != nil && cdone(reqctx(hc.request)) == context.DeadlineExceeded && !Is(callres("(*connectUnaryUnmarshaler).Unmarshal", 1), io.EOF) ==> coded(err) && codeOf(err) == 4   // label: a-receive-that-fails-once-the-deadline-passed-is-deadline-exceeded-whatever-the-transport-reports   // tags: C15
 //@   assert@call((*connectUnaryUnmarshaler).Unmarshal#1): arg1 == msg
 //@ func (*connectUnaryUnmarshaler).Unmarshal(u, message) res
 //@   tags C01, C07, C09
@@ -2948,23 +2956,27 @@ package connect
 //@   ensures res == callres("(*connectUnaryUnmarshaler).UnmarshalFunc", 1)
 //@   assert@call((*connectUnaryUnmarshaler).UnmarshalFunc#1): arg1 == message   // label: the-caller's-message-is-the-target
 //@ func (*connectStreamingHandlerConn).Receive(hc, msg) err
-//@   tags C01, C07, C04
-//@   requires hc != nil && hc.unmarshaler.envelopeReader.reader != nil && !pooled(hc.unmarshaler.envelopeReader.reader) && termerr(hc.unmarshaler.envelopeReader.reader) != errSpecialEnvelope && hc.unmarshaler.envelopeReader.bufferPool != nil && hc.unmarshaler.envelopeReader.codec != nil
+//@   tags C01, C07, C04, C15
+//@   requires hc != nil && hc.request != nil && hc.unmarshaler.envelopeReader.reader != nil && !pooled(hc.unmarshaler.envelopeReader.reader) && termerr(hc.unmarshaler.envelopeReader.reader) != errSpecialEnvelope && hc.unmarshaler.envelopeReader.bufferPool != nil && hc.unmarshaler.envelopeReader.codec != nil
 //@   assigns everything
 //@   ensures old(hc.receiveErr) != nil ==> err == old(hc.receiveErr) && !called("(*connectStreamingUnmarshaler).Unmarshal", 1) && hc.receiveErr == old(hc.receiveErr)   // label: after-the-first-failure-(or-the-end-of-the-request)-nothing-more-is-read-and-the-same-error-is-returned   // tags: C04, C07
 //@   ensures old(hc.receiveErr) == nil ==> (err == nil) == (callres("(*connectStreamingUnmarshaler).Unmarshal", 1) == nil)   // label: a-message-iff-the-unmarshaler-produced-one
-//@   ensures old(hc.receiveErr) == nil && err != nil && !Is(callres("(*connectStreamingUnmarshaler).Unmarshal", 1), errSpecialEnvelope) ==> err == callres("(*connectStreamingUnmarshaler).Unmarshal", 1)   // label: the-unmarshaler's-error-is-returned
+//@   ensures old(hc.receiveErr) == nil && err != nil && !Is(callres("(*connectStreamingUnmarshaler).Unmarshal", 1), errSpecialEnvelope) && (Is(callres("(*connectStreamingUnmarshaler).Unmarshal", 1), io.EOF) || cdone(reqctx(hc.request)) == nil) ==> err == callres("(*connectStreamingUnmarshaler).Unmarshal", 1)   // label: the-unmarshaler's-error-is-returned
+//@   ensures old(hc.receiveErr) == nil && err != nil && !Is(callres("(*connectStreamingUnmarshaler).Unmarshal", 1), io.EOF) && cdone(reqctx(hc.request)) == context.Canceled ==> codeOf(err) == 1   // label: a-receive-that-fails-once-the-client-went-away-is-canceled-whatever-the-transport-reports   // tags: C15
+//@   ensures old(hc.receiveErr) == nil && err != nil && !Is(callres("(*connectStreamingUnmarshaler).Unmarshal", 1), io.EOF) && cdone(reqctx(hc.request)) == context.DeadlineExceeded ==> codeOf(err) == 4   // label: a-receive-that-fails-once-the-deadline-passed-is-deadline-exceeded-whatever-the-transport-reports   // tags: C15
 //@   ensures old(hc.receiveErr) == nil && err != nil && Is(err, io.EOF) && termerr(hc.unmarshaler.envelopeReader.reader) == io.EOF ==> |old(rest(hc.unmarshaler.envelopeReader.reader))| == 0   // label: the-handler-sees-a-clean-end-only-at-the-clean-end-of-the-request-body   // tags: C04, C07
 //@   ensures err != nil ==> hc.receiveErr == err   // label: the-first-error-is-latched   // tags: C04
 //@   ensures old(hc.receiveErr) == nil && err != nil ==> coded(err)                                                                   // label: errors-are-coded
 //@   assert@call((*connectStreamingUnmarshaler).Unmarshal#1): arg1 == msg
 //@ func (*grpcHandlerConn).Receive(hc, msg) err
-//@   tags C01, C07, C04
-//@   requires hc != nil && hc.unmarshaler.envelopeReader.reader != nil && !pooled(hc.unmarshaler.envelopeReader.reader) && termerr(hc.unmarshaler.envelopeReader.reader) != errSpecialEnvelope && hc.unmarshaler.envelopeReader.bufferPool != nil && hc.unmarshaler.envelopeReader.codec != nil
+//@   tags C01, C07, C04, C15
+//@   requires hc != nil && hc.request != nil && hc.unmarshaler.envelopeReader.reader != nil && !pooled(hc.unmarshaler.envelopeReader.reader) && termerr(hc.unmarshaler.envelopeReader.reader) != errSpecialEnvelope && hc.unmarshaler.envelopeReader.bufferPool != nil && hc.unmarshaler.envelopeReader.codec != nil
 //@   assigns everything
 //@   ensures old(hc.receiveErr) != nil ==> err == old(hc.receiveErr) && !called("(*grpcUnmarshaler).Unmarshal", 1) && hc.receiveErr == old(hc.receiveErr)   // label: after-the-first-failure-(or-the-end-of-the-request)-nothing-more-is-read-and-the-same-error-is-returned   // tags: C04, C07
 //@   ensures old(hc.receiveErr) == nil ==> (err == nil) == (callres("(*grpcUnmarshaler).Unmarshal", 1) == nil)   // label: a-message-iff-the-unmarshaler-produced-one
-//@   ensures old(hc.receiveErr) == nil && err != nil && !Is(callres("(*grpcUnmarshaler).Unmarshal", 1), errSpecialEnvelope) ==> err == callres("(*grpcUnmarshaler).Unmarshal", 1)   // label: the-unmarshaler's-error-is-returned
+//@   ensures old(hc.receiveErr) == nil && err != nil && !Is(callres("(*grpcUnmarshaler).Unmarshal", 1), errSpecialEnvelope) && (Is(callres("(*grpcUnmarshaler).Unmarshal", 1), io.EOF) || cdone(reqctx(hc.request)) == nil) ==> err == callres("(*grpcUnmarshaler).Unmarshal", 1)   // label: the-unmarshaler's-error-is-returned
+//@   ensures old(hc.receiveErr) == nil && err != nil && !Is(callres("(*grpcUnmarshaler).Unmarshal", 1), io.EOF) && cdone(reqctx(hc.request)) == context.Canceled ==> codeOf(err) == 1   // label: a-receive-that-fails-once-the-client-went-away-is-canceled-whatever-the-transport-reports   // tags: C15
+//@   ensures old(hc.receiveErr) == nil && err != nil && !Is(callres("(*grpcUnmarshaler).Unmarshal", 1), io.EOF) && cdone(reqctx(hc.request)) == context.DeadlineExceeded ==> codeOf(err) == 4   // label: a-receive-that-fails-once-the-deadline-passed-is-deadline-exceeded-whatever-the-transport-reports   // tags: C15
 //@   ensures old(hc.receiveErr) == nil && err != nil && Is(err, io.EOF) && termerr(hc.unmarshaler.envelopeReader.reader) == io.EOF ==> |old(rest(hc.unmarshaler.envelopeReader.reader))| == 0   // label: the-handler-sees-a-clean-end-only-at-the-clean-end-of-the-request-body   // tags: C04, C07
 //@   ensures err != nil ==> hc.receiveErr == err   // label: the-first-error-is-latched   // tags: C04
 //@   ensures old(hc.receiveErr) == nil && err != nil ==> coded(err)                                                                   // label: errors-are-coded
